@@ -2442,9 +2442,15 @@ class InterToGitBranch(branch.GenericInterBranch):
             update_refs = partial(
                 _update_pure_git_refs, result, new_refs, overwrite, tag_selector
             )
+            # overwrite can name aspects ({"tags"}, ["history"]): only
+            # "history" lets the repository skip its divergence test.
+            if overwrite is True:
+                overwrite_history = True
+            else:
+                overwrite_history = bool(overwrite) and "history" in overwrite
             try:
                 result.revidmap, old_refs, new_refs = self.interrepo.fetch_refs(
-                    update_refs, lossy=lossy, overwrite=overwrite
+                    update_refs, lossy=lossy, overwrite=overwrite_history
                 )
             except NoPushSupport as err:
                 raise errors.NoRoundtrippingSupport(self.source, self.target) from err
